@@ -474,7 +474,7 @@ def lemma_le(b, a, facts):
 
 # --------------------------------------------------------------------------------------- R4
 def r4_file_lengths(ctx, prog):
-    r = ctx.rule('C17.R4', 'a length read from a file is bounded by the file before it sizes a buffer', floor=2, engine='E2')
+    r = ctx.rule('C17.R4', 'a length read from a file is bounded by the file before it sizes a buffer; the bound is right for every unsigned length', floor=9, engine='E2')
     for f in sorted(prog.methods_of('File'), key=lambda f: f['line']):
         lens = [(v, c) for v, c in [(d['var']['name'], None) for n in walk(f['body']) if n.get('k') == 'Decl' for d in n['decls']] if False]
         reads = [c for c in calls(f['body'], short='readULong') if c['args'] and c['args'][0].get('k') == 'Var']
@@ -497,6 +497,39 @@ def r4_file_lengths(ctx, prog):
                 r.violation(f['qname'], site, 'the length %s comes straight from the file and sizes the buffer without any bound: a corrupt length field makes the allocation throw (the exception barrier then calls exit) or exhausts memory' % lv, file=f['file'], line=line, path=bad[0]['path'])
             else:
                 r.ok(f['qname'], site, 'bounded first', file=f['file'], line=line)
+
+    # the bound itself: the file-local helper that compares a length with what is left of the file answers 'len <= remaining' for EVERY unsigned length, also beyond LONG_MAX
+    helpers = set()
+    for f in prog.methods_of('File'):
+        for c in calls(f['body']):
+            gs = prog.fns(c['callee']) if c.get('callee') and '::' not in c['callee'] else []
+            g = gs[0] if len(gs) == 1 else None
+            if g is not None and not g.get('class') and g['file'] == f['file'] and [pp for pp in g['params'] if 'FILE' in (pp.get('type') or '')] and len(g['params']) == 2:
+                helpers.add(g['qname'])
+    for q in sorted(helpers):
+        g = prog.fn(q)
+        ctx.analysed(g)
+        ft = sorted({c['l'] for c in calls(g['body'], short='ftell')})
+        ln = [pp['var']['name'] for pp in g['params'] if 'FILE' not in (pp.get('type') or '')][0]
+        if len(ft) != 2:
+            r.undecided(q, 'bound helper', 'expected two ftell calls (position, end), found %d' % len(ft), file=g['file'], line=g['line'])
+            continue
+        CUR, END = 10, 110
+        for v in (0, 100, 101, 2 ** 63 - 1, 2 ** 63, 2 ** 63 + 5, 2 ** 64 - 1):
+            cenv = {re.compile(r'ftell@%d\(.*\)' % ft[0]): CUR, re.compile(r'ftell@%d\(.*\)' % ft[1]): END, re.compile(r'fseek(@\d+)?\(.*\)'): 0, ln: v}
+            o = Outcomes(g, prog, cenv=cenv, record_calls=set()).go()
+            r.paths += len(o.outcomes)
+            got = {oc['retv'] if oc['retv'] is not None else (1 if oc['ret'] == 'true' else 0 if oc['ret'] == 'false' else None) for oc in o.outcomes}
+            site = 'bound helper: length %d, %d bytes left' % (v, END - CUR)
+            want = int(v <= END - CUR)
+            if None in got or not got:
+                r.undecided(q, site, 'result not concrete', file=g['file'], line=g['line'])
+            elif got != {want}:
+                r.violation(q, site, 'answers %s for a length of %d with %d bytes left in the file: %s' % ('"fits"' if 1 in got else '"does not fit"', v, END - CUR,
+                            'a corrupt length field with the top bit set sizes the buffer (the allocation throws inside C_Initialize and the exception barrier ends the process)' if want == 0 else 'valid files are rejected'),
+                            file=g['file'], line=g['line'])
+            else:
+                r.ok(q, site, 'fits' if want else 'does not fit', file=g['file'], line=g['line'])
 
 
 # --------------------------------------------------------------------------------------- R5 / R6
@@ -756,6 +789,51 @@ def r8_ownership(ctx, prog):
             r.ok(f['qname'], 'hand-overs to the session', '%d hand-overs, %d paths' % (n, len(o.outcomes)), file=f['file'], line=f['line'])
 
 
+def r9_slot_table(ctx, prog):
+    """SlotManager::getSlotList (C_GetSlotList) dereferences every element of the slot table without a NULL test.  That is sound only while nothing but the code that creates slots
+    changes the table: any other mutating container operation on it - in particular std::map::operator[] in a lookup, which silently inserts a NULL element for an unknown slot ID -
+    turns a later C_GetSlotList into a NULL dereference."""
+    r = ctx.rule('C17.R9', 'the slot table, whose elements are dereferenced unchecked, is changed only where slots are created', floor=3, engine='E6 who-may-write + contradiction rule')
+    MUT = {'operator[]', 'insert', 'erase', 'clear', 'emplace', 'swap', 'operator=', 'emplace_hint', 'insert_or_assign', 'try_emplace'}
+    unchecked = []
+    writers = {}
+    for f in prog.functions.values():
+        if f.get('class') != 'SlotManager':
+            continue
+        tests = set()
+        for n in walk(f['body']):
+            if n.get('k') == 'Bin' and n.get('op') in ('==', '!='):
+                tests |= {canon(x) for x in (n['a'], n['b']) if x.get('k') == 'Member' and x.get('field') == 'second'}
+            if n.get('k') == 'Un' and n.get('op') == '!' and n['e'].get('k') == 'Member' and n['e'].get('field') == 'second':
+                tests.add(canon(n['e']))
+        for n in walk(f['body']):
+            b = n.get('recv') if n.get('k') == 'Call' else (n.get('base') if n.get('k') == 'Member' and n.get('arrow') else None)
+            if b is not None and b.get('k') == 'Member' and b.get('field') == 'second' and canon(b) not in tests:
+                unchecked.append((f, n['l']))
+            if n.get('k') == 'Call' and n.get('recv') is not None and n['recv'].get('k') == 'Member' and n['recv'].get('field') == 'slots' and n['recv']['base'].get('k') == 'This' and short(n.get('callee')) in MUT:
+                writers.setdefault(f['qname'], []).append((short(n['callee']), n['l'], f))
+            if n.get('k') == 'Assign' and n['a'].get('k') == 'Member' and n['a'].get('field') == 'slots':
+                writers.setdefault(f['qname'], []).append(('=', n['l'], f))
+    if not unchecked:
+        r.ok('SlotManager', 'unchecked element use', 'no unchecked dereference of a slot table element left: the table may hold NULL elements', file='', line=0)
+        return
+    f0, l0 = unchecked[0]
+    ctx.analysed(f0)
+    r.ok(f0['qname'], 'unchecked element use', 'elements dereferenced without a NULL test (line %d): the table must never hold a NULL element' % l0, file=f0['file'], line=l0)
+    ALLOWED = {'SlotManager::SlotManager': 'builds the table', 'SlotManager::~SlotManager': 'empties it', 'SlotManager::insertToken': 'adds a slot for a new token (non-NULL, new Slot)'}
+    for q, ws in sorted(writers.items()):
+        f = ws[0][2]
+        ctx.analysed(f)
+        site = 'changes the slot table (%s)' % ', '.join(sorted({w[0] for w in ws}))
+        if q in ALLOWED:
+            r.ok(q, site, ALLOWED[q], file=f['file'], line=ws[0][1])
+        else:
+            r.violation(q, site, '%s applies %s to the slot table (line %d): %s; SlotManager::getSlotList dereferences every element unchecked (line %d), so a later C_GetSlotList crashes' % (
+                q, ws[0][0], ws[0][1], 'std::map::operator[] inserts a NULL Slot* for a key that is not there' if ws[0][0] == 'operator[]' else 'only the slot-creating functions may change the table', l0), file=f['file'], line=ws[0][1])
+    if not writers:
+        r.undecided('SlotManager', 'writers', 'no function changes the slot table: anchor lost', file='', line=0)
+
+
 def run(ctx):
     prog = ctx.prog('ossl-file')
     r1_arrays(ctx, prog)
@@ -766,6 +844,7 @@ def run(ctx):
     r6_terminators(ctx, prog)
     r7_null(ctx, prog)
     r8_ownership(ctx, prog)
+    r9_slot_table(ctx, prog)
 
 
 MUTANTS = [
